@@ -45,6 +45,7 @@ pub fn run(obligation: &str) -> i32 {
     if obligation.starts_with("C02.needs_unnesting") { c02_needs_unnesting(&mut rep); return rep.finish("C02_unnesting"); }
     if obligation.starts_with("C02.") || obligation.starts_with("C05.") { c02_c05_assembly(&mut rep); return rep.finish("C02_C05_assembly"); }
     if obligation.starts_with("C04.") { c04_bounds(&mut rep); return rep.finish("C04_bounds"); }
+    if obligation.starts_with("C07.named_lookup") || obligation.starts_with("C07.has_enum_value") || obligation.starts_with("C07.lemma") { c07_lookup(&mut rep); return rep.finish("C07_lookup"); }
     if obligation.starts_with("C07.") { c07_octets_to_bits(&mut rep); return rep.finish("C07_octets_to_bits"); }
     if obligation.starts_with("C14.") { c14_numbering(&mut rep); return rep.finish("C14_numbering"); }
     if obligation.starts_with("C06.max_restrictive") || obligation.starts_with("C06.int_type.") || obligation.starts_with("C06.lemma.") { c06_serial(&mut rep); return rep.finish("C06.int_type"); }
@@ -727,4 +728,54 @@ fn c06_serial(rep: &mut Rep) {
         }
         rep.check("C06.lemma.fixed_width_only_from_a_finite_non_extensible_constraint", got == IntegerType::Unbounded || rs.iter().any(|r| !r.2 && spec_width(r.0, r.1, false) == got), d);
     }
+}
+
+// ---------------------------------------------------------------------------------------------- C07 (unit C07_lookup)
+fn c07_lookup(rep: &mut Rep) {
+    use rasn_compiler::verif_hooks::{hook_has_enum_value, hook_named_lookup};
+    let names = ["a", "b", "red"];
+    let numbers: [i128; 5] = [-1, 0, 1, 2, 5];
+    // item lists of 0..=3 items: names with repetition allowed, numbers deliberately different from positions
+    let mut lists: Vec<Vec<(usize, i128)>> = vec![vec![]];
+    for n1 in 0..3 { for v1 in numbers { lists.push(vec![(n1, v1)]);
+        for n2 in 0..3 { for v2 in [0i128, 2, 5] { lists.push(vec![(n1, v1), (n2, v2)]);
+            if v1 == 5 { for n3 in 0..3 { lists.push(vec![(n1, v1), (n2, v2), (n3, 1)]); } } } } } }
+    let type_names = ["Color", "SubColor", "color", "Col"];
+    for l in &lists { for decl in ["Color", "SubColor"] { for gov in [None, Some(0usize), Some(1), Some(2), Some(3)] { for id in names {
+        let gov_s = gov.map(|g| type_names[g].to_string());
+        let ident = id.to_string();
+        let governs = gov.map_or(true, |g| type_names[g] == decl);
+        let first = l.iter().find(|(n, _)| names[*n] == id).map(|(_, v)| *v);
+        let d = |kind: &str| format!("{decl} ::= {kind} {{ {} }}  governing type {:?}  identifier {id}", l.iter().map(|(n, v)| format!("{}({v})", names[*n])).collect::<Vec<_>>().join(", "), gov_s);
+        // ENUMERATED
+        let en = ToplevelDefinition::Type(ToplevelTypeDefinition { comments: String::new(), tag: None, name: decl.into(), parameterization: None, module_header: None,
+            ty: ASN1Type::Enumerated(Enumerated { members: l.iter().map(|(n, v)| Enumeral { name: names[*n].into(), description: None, index: *v }).collect(), extensible: None, constraints: vec![] }) });
+        let got = hook_named_lookup(&en, gov_s.as_ref(), &ident);
+        if governs {
+            rep.check("C07.named_lookup.enumeral_gives_its_x680_number_not_its_position", got == first.map(ASN1Value::Integer), || format!("{} -> {got:?}", d("ENUMERATED")));
+            rep.check("C07.named_lookup.enumerals_scanned_so_far", got == first.map(ASN1Value::Integer), || format!("{} -> {got:?}", d("ENUMERATED")));
+        } else {
+            rep.check("C07.named_lookup.another_type_than_the_governing_one_answers_nothing", got.is_none(), || format!("{} -> {got:?}", d("ENUMERATED")));
+        }
+        let has = hook_has_enum_value(&en, gov_s.as_ref(), &ident);
+        rep.check("C07.has_enum_value.exactly_the_governing_enumerated_type_that_declares_the_identifier", has == (governs && first.is_some()), || format!("{} -> {has}", d("ENUMERATED")));
+        rep.check("C07.has_enum_value.enumerals_scanned_so_far", has == (governs && first.is_some()), || format!("{} -> {has}", d("ENUMERATED")));
+        // INTEGER with named numbers
+        let it = ToplevelDefinition::Type(ToplevelTypeDefinition { comments: String::new(), tag: None, name: decl.into(), parameterization: None, module_header: None,
+            ty: ASN1Type::Integer(Integer { constraints: vec![], distinguished_values: if l.is_empty() { None } else { Some(l.iter().map(|(n, v)| DistinguishedValue { name: names[*n].into(), value: *v }).collect()) } }) });
+        let got = hook_named_lookup(&it, gov_s.as_ref(), &ident);
+        if governs {
+            rep.check("C07.named_lookup.named_number_gives_its_value", got == first.map(ASN1Value::Integer), || format!("{} -> {got:?}", d("INTEGER")));
+            rep.check("C07.named_lookup.named_numbers_scanned_so_far", got == first.map(ASN1Value::Integer), || format!("{} -> {got:?}", d("INTEGER")));
+        } else {
+            rep.check("C07.named_lookup.another_type_than_the_governing_one_answers_nothing", got.is_none(), || format!("{} -> {got:?}", d("INTEGER")));
+        }
+        rep.check("C07.has_enum_value.exactly_the_governing_enumerated_type_that_declares_the_identifier", !hook_has_enum_value(&it, gov_s.as_ref(), &ident), || d("INTEGER"));
+    } } } }
+    let other = ToplevelDefinition::Type(ToplevelTypeDefinition { comments: String::new(), tag: None, name: "Color".into(), parameterization: None, module_header: None, ty: ASN1Type::Null });
+    rep.check("C07.named_lookup.other_types_declare_no_names", hook_named_lookup(&other, None, &"a".to_string()).is_none(), || "NULL type".into());
+    let v = ToplevelDefinition::Value(ToplevelValueDefinition { comments: String::new(), name: "a".into(), associated_type: ASN1Type::Null, parameterization: None, value: ASN1Value::Integer(3), module_header: None });
+    rep.check("C07.named_lookup.only_type_assignments_declare_names", hook_named_lookup(&v, None, &"a".to_string()).is_none(), || "value assignment a".into());
+    rep.check("C07.named_lookup.safety", true, || String::new());
+    rep.check("C07.has_enum_value.safety", true, || String::new());
 }
